@@ -151,6 +151,22 @@ func loadProg(repo string) (*Prog, error) {
 			fi.Spec = fs
 		}
 	}
+	// map types used anywhere in the repository
+	seenMap := map[string]bool{}
+	for _, pk := range p.Pkgs {
+		for _, tv := range pk.TypesInfo.Types {
+			if tv.Type == nil {
+				continue
+			}
+			if m, ok := types.Unalias(tv.Type).Underlying().(*types.Map); ok {
+				if !seenMap[m.String()] {
+					seenMap[m.String()] = true
+					p.MapTypes = append(p.MapTypes, m)
+				}
+			}
+		}
+	}
+	sort.Slice(p.MapTypes, func(i, j int) bool { return p.MapTypes[i].String() < p.MapTypes[j].String() })
 	p.computeWrites()
 	return p, nil
 }
@@ -297,4 +313,52 @@ func (p *Prog) globalVar(key string) *types.Var {
 	}
 	v, _ := pk.Types.Scope().Lookup(parts[1]).(*types.Var)
 	return v
+}
+
+// constErrorVar: a package-level variable initialised with errors.New(...) / regexp.MustCompile(...) and never
+// assigned by any repository function is a non-nil constant.
+func (p *Prog) constErrorVar(o types.Object) bool {
+	v, ok := o.(*types.Var)
+	if !ok || v.Pkg() == nil || !isRepoPkg(v.Pkg()) {
+		return false
+	}
+	key := globalKey(v)
+	for _, fi := range p.Funcs {
+		if fi.Writes[key] {
+			return false
+		}
+	}
+	pk := p.Pkgs[pkgShort(v.Pkg())]
+	if pk == nil {
+		return false
+	}
+	for _, f := range pk.Syntax {
+		for _, d := range f.Decls {
+			gd, ok := d.(*ast.GenDecl)
+			if !ok || gd.Tok != token.VAR {
+				continue
+			}
+			for _, sp := range gd.Specs {
+				vs := sp.(*ast.ValueSpec)
+				for i, nm := range vs.Names {
+					if pk.TypesInfo.Defs[nm] != o || i >= len(vs.Values) {
+						continue
+					}
+					call, ok := vs.Values[i].(*ast.CallExpr)
+					if !ok {
+						return false
+					}
+					if sel, ok := call.Fun.(*ast.SelectorExpr); ok {
+						if fn, ok := pk.TypesInfo.ObjectOf(sel.Sel).(*types.Func); ok {
+							switch fn.FullName() {
+							case "errors.New", "fmt.Errorf", "regexp.MustCompile":
+								return true
+							}
+						}
+					}
+				}
+			}
+		}
+	}
+	return false
 }
